@@ -163,4 +163,6 @@ Example ex_restart : exists objs1 o1 objs2 o2,
   let fq := fun p : list Z => nth 0 p 0 * nth 0 p 0 + 3 * (nth 1 p 0 - 3) * (nth 1 p 0 - 3) in
   objs_call ZOps [obj_fresh ZOps] [1] 0 (Req1 fq (VGiven [20; -31]) 16) = Ok (objs1, o1) /\
   objs_call ZOps objs1 [1] 0 (ReqGS fq 0) = Ok (objs2, o2) /\ o_fmin o2 <= o_fmin o1.
-Proof. do 4 eexists. vm_compute. repeat split; try reflexivity. discriminate. Qed.
+Proof.
+  do 4 eexists. cbv zeta. split; [vm_compute; reflexivity|]. split; [vm_compute; reflexivity|]. vm_compute. discriminate.
+Qed.
